@@ -87,6 +87,8 @@ type Cfg struct {
 	// Chunk: the transport hands over request and response bodies in reads of
 	// at most this many bytes (0 = whatever the reader asks for).
 	Chunk int `json:"chunk,omitempty"`
+	// ReadMax: both sides carry WithReadMaxBytes(ReadMax) (0 = no limit).
+	ReadMax int `json:"read_max,omitempty"`
 }
 
 func (c Cfg) String() string {
@@ -96,6 +98,9 @@ func (c Cfg) String() string {
 	}
 	if c.Chunk > 0 {
 		return fmt.Sprintf("%s/%s/%s/%s/h%d/%s/chunk%d", c.Proto, codec, c.Comp, c.Kind, c.HTTP, c.ReqMode, c.Chunk)
+	}
+	if c.ReadMax > 0 {
+		return fmt.Sprintf("%s/%s/%s/%s/h%d/%s/readmax%d", c.Proto, codec, c.Comp, c.Kind, c.HTTP, c.ReqMode, c.ReadMax)
 	}
 	return fmt.Sprintf("%s/%s/%s/%s/h%d/%s", c.Proto, codec, c.Comp, c.Kind, c.HTTP, c.ReqMode)
 }
@@ -299,6 +304,9 @@ func (c Cfg) ClientOptions() []connect.ClientOption {
 	if c.JSON {
 		opts = append(opts, connect.WithProtoJSON())
 	}
+	if c.ReadMax > 0 {
+		opts = append(opts, connect.WithReadMaxBytes(c.ReadMax))
+	}
 	switch c.Comp {
 	case CompSendGzip:
 		opts = append(opts, connect.WithSendGzip())
@@ -317,6 +325,9 @@ func (c Cfg) ClientOptions() []connect.ClientOption {
 // HandlerOptions for a configuration.
 func (c Cfg) HandlerOptions() []connect.HandlerOption {
 	var opts []connect.HandlerOption
+	if c.ReadMax > 0 {
+		opts = append(opts, connect.WithReadMaxBytes(c.ReadMax))
+	}
 	switch c.Comp {
 	case CompSendMin:
 		opts = append(opts, connect.WithCompressMinBytes(MinBytes))
